@@ -141,6 +141,8 @@ type Event struct {
 
 	RObj    types.Object   // EvAssign: the object the right-hand side names on this path (through inlined helpers' parameters)
 	ArgObjs []types.Object // EvCall: the same for each argument (nil where the argument is not a name)
+	Made    *MadeInfo      // EvAssign: the make(...) the assigned value was created by on this path (through helpers)
+	RetExpr ast.Expr       // EvAssign from an inlined helper call: the operand of the helper's return statement on this path
 
 	// type case / assert
 	Types    []types.Type
@@ -298,11 +300,20 @@ type env struct {
 	links map[types.Object]link
 	typs  map[types.Object]types.Type   // refined dynamic type of a variable (type switch / assertion)
 	alias map[types.Object]types.Object // parameter of an inlined NEW helper -> the object passed at this call
+	made  map[types.Object]*MadeInfo    // variable / field that holds the result of a make(...) on this path
+	argEx map[types.Object]ast.Expr     // parameter of an inlined NEW helper -> the argument expression at this call
+}
+
+// MadeInfo describes the make(...) call a channel, map or slice variable was created by on the path.
+type MadeInfo struct {
+	Call    *ast.CallExpr
+	SizeRaw types.Object // the object the size argument names where it is written (a parameter inside a helper)
+	SizeObj types.Object // the same resolved through the parameters of inlined helpers
 }
 
 func newEnv() *env {
 	return &env{vals: map[types.Object]Val{}, defs: map[types.Object]*Event{}, links: map[types.Object]link{}, typs: map[types.Object]types.Type{},
-		alias: map[types.Object]types.Object{}}
+		alias: map[types.Object]types.Object{}, made: map[types.Object]*MadeInfo{}, argEx: map[types.Object]ast.Expr{}}
 }
 
 func (e *env) clone() *env {
@@ -321,6 +332,12 @@ func (e *env) clone() *env {
 	}
 	for k, v := range e.alias {
 		n.alias[k] = v
+	}
+	for k, v := range e.made {
+		n.made[k] = v
+	}
+	for k, v := range e.argEx {
+		n.argEx[k] = v
 	}
 	return n
 }
@@ -343,10 +360,14 @@ type state struct {
 	defers *deferred
 	depth  int
 	stack  []*types.Func // inline stack
+	// the objects an inlined helper's return operands named (set when the helper returns, consumed by the binding
+	// of its results)
+	retObjs []types.Object
+	retExs  []ast.Expr
 }
 
 func (s *state) fork() *state {
-	return &state{env: s.env.clone(), evs: s.evs, defers: s.defers, depth: s.depth, stack: s.stack}
+	return &state{env: s.env.clone(), evs: s.evs, defers: s.defers, depth: s.depth, stack: s.stack, retObjs: s.retObjs, retExs: s.retExs}
 }
 
 func (s *state) emit(e *Event) *Event {
@@ -2042,12 +2063,20 @@ func (in *Interp) assign(st *state, lhs, rhs []ast.Expr, tok token.Token, node a
 				}
 				in.callStmt(st, call, fr, func(s *state, vals []Val) {
 					ev := s.lastCall(call)
+					ret, rex := s.retObjs, s.retExs
+					s.retObjs, s.retExs = nil, nil
 					for i, l := range lhs {
 						v := unknown
 						if i < len(vals) {
 							v = vals[i]
 						}
 						in.bind(s, l, rhs[0], v, node, ev, len(lhs) > 1 || true)
+						if i < len(rex) && s.evs != nil && s.evs.ev.Kind == EvAssign {
+							s.evs.ev.RetExpr = rex[i]
+						}
+						if i < len(ret) && ret[i] != nil {
+							in.adopt(s, l, ret[i], ev)
+						}
 					}
 					k(s)
 				})
@@ -2142,6 +2171,26 @@ func (in *Interp) bind(st *state, l, r ast.Expr, v Val, node ast.Node, def *Even
 	if r != nil {
 		ev.RObj = in.pathObj(st, r)
 	}
+	if o != nil && r != nil {
+		if _, isIndex := ast.Unparen(l).(*ast.IndexExpr); !isIndex {
+			delete(st.env.made, o)
+			if mc, ok := ast.Unparen(r).(*ast.CallExpr); ok {
+				if id, isId := ast.Unparen(mc.Fun).(*ast.Ident); isId && id.Name == "make" {
+					if _, isB := in.Info.Uses[id].(*types.Builtin); isB {
+						mi := &MadeInfo{Call: mc}
+						if len(mc.Args) >= 2 {
+							mi.SizeRaw, mi.SizeObj = in.objOf(mc.Args[1]), in.pathObj(st, mc.Args[1])
+						}
+						st.env.made[o], ev.Made = mi, mi
+					}
+				}
+			} else if ro := in.objOf(r); ro != nil {
+				if mi, ok := st.env.made[ro]; ok {
+					st.env.made[o], ev.Made = mi, mi
+				}
+			}
+		}
+	}
 	if o != nil {
 		if _, isIndex := ast.Unparen(l).(*ast.IndexExpr); !isIndex {
 			ko := in.key(l)
@@ -2176,6 +2225,45 @@ func (in *Interp) bind(st *state, l, r ast.Expr, v Val, node ast.Node, def *Even
 	}
 	st.emit(ev)
 	in.access(st, l, true)
+}
+
+// adopt: the result of an inlined helper was bound to l; src is the object the helper's return operand named. What
+// the helper did to src it did to l: the make(...) is carried over, and the channel operations the helper performed
+// on its local are attributed to the field that now holds the channel.
+func (in *Interp) adopt(s *state, l ast.Expr, src types.Object, callEv *Event) {
+	o := in.lhsObj(l)
+	if o == nil || src == nil || o == src {
+		return
+	}
+	var asg *Event
+	if s.evs != nil && s.evs.ev.Kind == EvAssign && s.evs.ev.LObj == o {
+		asg = s.evs.ev
+	}
+	if asg != nil && asg.RObj == nil {
+		asg.RObj = src
+	}
+	if mi, ok := s.env.made[src]; ok {
+		s.env.made[o] = mi
+		if asg != nil {
+			asg.Made = mi
+		}
+	}
+	if _, isChan := o.Type().Underlying().(*types.Chan); !isChan {
+		return
+	}
+	if lv, ok := src.(*types.Var); !ok || lv.IsField() {
+		return
+	}
+	fv, _ := o.(*types.Var)
+	for n := s.evs; n != nil && n.ev != callEv; n = n.prev {
+		e := n.ev
+		if e.ChanObj == src {
+			e.ChanObj = o
+			if fv != nil && fv.IsField() && e.ChanField == nil {
+				e.ChanField = fv
+			}
+		}
+	}
 }
 
 // inlinable returns the function to inline for call, or nil.
@@ -2262,10 +2350,16 @@ func (in *Interp) callStmt(st *state, call *ast.CallExpr, fr *frame, k func(*sta
 			if ao := in.pathObj(st, call.Args[i]); ao != nil {
 				st.env.alias[p] = ao
 			}
+			st.env.argEx[p] = call.Args[i]
 		}
 	}
 	sfr := &frame{}
 	sfr.ret = func(s *state, r *ast.ReturnStmt, res []ast.Expr, vals []Val) {
+		s.retObjs, s.retExs = nil, nil
+		for _, e := range res {
+			s.retObjs = append(s.retObjs, sub.pathObj(s, e))
+			s.retExs = append(s.retExs, e)
+		}
 		sub.runDefers(s)
 		s.defers = saveDefers
 		s.depth--
